@@ -198,14 +198,20 @@ def fixLast (mem' removed : List Entry) (tl : List (Nat × Nat)) (t : Nat) : Lis
     else tl
   | _, _ => tl
 
-/-- `remove_range(a..=b)` -/
-def removeRange (b : Buf) (lo hi : Nat) : Buf :=
-  let removed := rangeE b.mem lo hi
-  let mem' := removeE b.mem lo hi
+/-- `remove_range`, for an arbitrary set `rm` of keys to remove -/
+def removeBy (b : Buf) (rm : Entry → Bool) : Buf :=
+  let removed := b.mem.filter rm
+  let mem' := b.mem.filter (fun e => !rm e)
   let terms := (removed.map (·.term)).eraseDups
   let tf := terms.foldl (fixFirst mem' removed) b.tfirst
   let tl := terms.foldl (fixLast mem' removed) b.tlast
   { b with mem := mem', tfirst := tf, tlast := tl, minIdx := firstIdx mem', maxIdx := lastIdx mem' }
+
+/-- `remove_range(lo..=hi)` -/
+def removeRange (b : Buf) (lo hi : Nat) : Buf := b.removeBy (inRange lo hi)
+
+/-- `remove_range(d..=u64::MAX)`: every key from `d` on (keys are `u64`) -/
+def removeFrom (b : Buf) (d : Nat) : Buf := b.removeBy (fun e => d ≤ e.index)
 
 /-- memory part of `purge_logs_up_to` (everything before the `IOTask::Purge` is sent) -/
 def purgeMem (b : Buf) (ci ct : Nat) : Buf :=
@@ -262,30 +268,36 @@ def divergePanics (b : Buf) : List Entry → Bool
     else if b.entryTerm e.index ≠ some e.term then false
     else divergePanics b es
 
+/-- Step 2 of the source: may the whole overlap be skipped? (two loads from `TermSegments`) -/
+def overlapSafe (b : Buf) (overlap : List Entry) : Bool :=
+  match overlap.head? with
+  | none => true
+  | some first =>
+    decide (b.segs.lastStart ≤ first.index) && first.term == b.segs.lastTerm &&
+    (match overlap.getLast? with | some l => l.term == b.segs.lastTerm | none => true)
+
+/-- slow path: scan for the first entry beyond the end or with a different term -/
+def fcaSlow (b : Buf) (es : List Entry) : FcaPlan × String :=
+  match divergePos b es with
+  | none => (.noop, "fca-slow-all-match")
+  | some pos =>
+    match es.drop pos with
+    | [] => (.noop, "fca-slow-all-match")   -- unreachable: pos < length
+    | d :: rest =>
+      if d.index ≤ b.maxIdx then (.replace d.index (d :: rest), "fca-slow-conflict")
+      else (.appendTail (d :: rest), "fca-slow-append")
+
+/-- prev matched: `partition_point`, overlap test, fast or slow path -/
+def fcaMatched (b : Buf) (es : List Entry) : FcaPlan × String :=
+  let skip := partitionPoint es (fun e => decide (e.index ≤ b.maxIdx))
+  if overlapSafe b (es.take skip) then
+    (if (es.drop skip).isEmpty then (.noop, "fca-fast-noop") else (.appendTail (es.drop skip), "fca-fast-append"))
+  else fcaSlow b es
+
 def fcaDecide (b : Buf) (prevI prevT : Nat) (es : List Entry) : FcaPlan × String :=
   if prevI = 0 ∧ prevT = 0 then (.reset, "fca-reset")
   else if b.entryTerm prevI ≠ some prevT then (.mismatch, "fca-prev-mismatch")
-  else
-    let last := b.maxIdx
-    let skip := partitionPoint es (fun e => e.index ≤ last)
-    let overlap := es.take skip
-    let tail := es.drop skip
-    let safe := match overlap.head? with
-      | none => true
-      | some first =>
-        b.segs.lastStart ≤ first.index && first.term == b.segs.lastTerm &&
-        (match overlap.getLast? with | some l => l.term == b.segs.lastTerm | none => true)
-    if safe then
-      (if tail.isEmpty then (.noop, "fca-fast-noop") else (.appendTail tail, "fca-fast-append"))
-    else match divergePos b es with
-      | none => (.noop, "fca-slow-all-match")
-      | some pos =>
-        let tail := es.drop pos
-        match tail.head? with
-        | none => (.noop, "fca-slow-all-match")   -- unreachable: pos < length
-        | some d =>
-          if d.index ≤ last then (.replace d.index tail, "fca-slow-conflict")
-          else (.appendTail tail, "fca-slow-append")
+  else fcaMatched b es
 
 def fcaPanics (b : Buf) (prevI prevT : Nat) (es : List Entry) : Bool :=
   if prevI = 0 ∧ prevT = 0 then false
@@ -298,7 +310,7 @@ def fcaPanics (b : Buf) (prevI prevT : Nat) (es : List Entry) : Bool :=
 
 /-- memory part of the conflict branch, in source order -/
 def Buf.replaceMem (b : Buf) (d : Nat) (tail : List Entry) : Buf :=
-  let b := b.removeRange d (2 ^ 64 - 1)
+  let b := b.removeFrom d
   let b := { b with nextId := d }
   let b := { b with durable := min b.durable (d - 1) }
   b.insertToMemory tail
@@ -703,6 +715,23 @@ def wfOp (p : Plain) : Op → Bool
   | .close _ => false
   | _ => true
 
+/-- strictly increasing indexes, the first one above `lo` -/
+def incrAbove : Nat → List Entry → Bool
+  | _, [] => true
+  | lo, e :: es => decide (lo < e.index) && incrAbove e.index es
+
+/-- The weaker reading of "what Raft hands to the log": indexes strictly increasing and above what is there,
+    terms ≥ 1 (and non-decreasing inside an AppendEntries request) — gaps between indexes are not excluded. -/
+def wfOpWeak (p : Plain) : Op → Bool
+  | .append es => incrAbove (if p.ents.isEmpty then p.anchorI else p.last) es && termsPos es
+  | .fca prevI prevT es _ =>
+    if prevI = 0 ∧ prevT = 0 then incrAbove p.anchorI es && termsPos es
+    else incrAbove prevI es && termsPos es && termsMono es
+  | .purge ci _ _ => p.anchorI ≤ ci
+  | .crash _ => false
+  | .close _ => false
+  | _ => true
+
 def Plain.exec (p : Plain) : Op → Plain × Res
   | .append es => (p.append es, .ok)
   | .fca prevI prevT es _ => let (p', r) := p.fca prevI prevT es; (p', .fcaRes r)
@@ -710,5 +739,51 @@ def Plain.exec (p : Plain) : Op → Plain × Res
   | .reset _ => (p.reset, .ok)
   | .get lo hi => (p, .ents (p.getRange lo hi))
   | _ => (p, .ok)
+
+/-! ## Runs -/
+
+/-- number of entries an operation hands to the log (each can open at most one `TermSegments` slot) -/
+def opEntries : Op → Nat
+  | .append es => es.length
+  | .fca _ _ es _ => es.length
+  | _ => 0
+
+def budget : List Op → Nat
+  | [] => 0
+  | op :: ops => opEntries op + budget ops
+
+/-- every operation is well-formed in the specification state it meets -/
+def wfRun : Plain → List Op → Bool
+  | _, [] => true
+  | p, op :: ops => wfOp p op && wfRun (p.exec op).1 ops
+
+def wfRunWeak : Plain → List Op → Bool
+  | _, [] => true
+  | p, op :: ops => wfOpWeak p op && wfRunWeak (p.exec op).1 ops
+
+def Sys.run : Sys → List Op → Sys × List Res
+  | s, [] => (s, [])
+  | s, op :: ops =>
+    let (s', r, _) := execOp s op
+    let (s'', rs) := Sys.run s' ops
+    (s'', r :: rs)
+
+def Plain.run : Plain → List Op → Plain × List Res
+  | p, [] => (p, [])
+  | p, op :: ops =>
+    let (p', r) := p.exec op
+    let (p'', rs) := Plain.run p' ops
+    (p'', r :: rs)
+
+/-- the results that are observations of the log (conflict-aware append, range read) must be equal -/
+def resAgree : Op → Res → Res → Bool
+  | .fca .., r, r' => r == r'
+  | .get .., r, r' => r == r'
+  | _, _, _ => true
+
+def resAgreeAll : List Op → List Res → List Res → Bool
+  | [], [], [] => true
+  | op :: ops, r :: rs, r' :: rs' => resAgree op r r' && resAgreeAll ops rs rs'
+  | _, _, _ => false
 
 end DEngine.BufLog
